@@ -527,6 +527,64 @@ def special_cases(ctx):
     return out
 
 
+def bigint_cases(ctx):
+    """integer rasters whose ids float32 cannot tell apart (20230000 / 20230001), one of them selected through
+    target_values: the Dask path must see the raster's own dtype, as the NumPy path does"""
+    rng = ctx.rng
+    out = []
+    for i in range(2):
+        h, w = rng.randint(4, 7), rng.randint(4, 8)
+        g = [[20230000.0] * w for _ in range(h)]
+        for _ in range(rng.randint(1, 3)):
+            g[rng.randrange(h)][rng.randrange(w)] = 20230001.0
+        single = i == 0
+        out.append(dict(fn='dask', layout='big-integer-ids', metric='EUCLIDEAN', data=g, dtype=['int64', 'int32'][i],
+                        xs=list(range(w)), ys=list(range(h)), cdtype='float64', ykind='asc', xkind='asc',
+                        tv=[20230001.0], mode='target_values', max_distance='inf' if single else 2.0,
+                        chunks=[[h], [w]] if single else [compositions_random(rng, h, 'small'), compositions_random(rng, w, 'small')],
+                        scheduler='threads', only=ONLY[i]))
+    return out
+
+
+def derived_cases(ctx):
+    """a Dask call on raster A followed by the same call on a raster derived from A through xarray (attrs are kept by
+    assign_coords / reindex): coordinates divided by k, or a k times finer nearest-neighbour grid - the second call must
+    derive its halo from B's own cell size; also A's attrs must be untouched by the call"""
+    rng = ctx.rng
+    out = []
+    for i in range(2):
+        h, w = 10, 12
+        g = c06.gen_layout(rng, h, w, 'multi')
+        a = dict(fn='dask-derived', layout='derived-raster', metric='EUCLIDEAN', data=[[float(v) for v in row] for row in g],
+                 dtype='float64', xs=[2 * j for j in range(w)], ys=[2 * j for j in range(h)], cdtype='float64',
+                 ykind='asc', xkind='asc', tv=[], mode='default', max_distance=2.0 if i == 0 else 3.0, scheduler='threads')
+        derive = ['scale', 2] if i == 0 else ['finer', 2]
+        out.append((a, [[5, 5], [4, 4, 4]], derive, 'proximity'))
+    return out
+
+
+def check_derived(ctx, items, pool):
+    res = pool.map([{'op': 'dask_derived', 'case': a, 'chunks': ch, 'derive': dv, 'name': name} for a, ch, dv, name in items])
+    for (a, ch, dv, name), r in zip(items, res):
+        rep = dict(a, chunks=ch, derive=dv, function=name)
+        ctx.case(rep)
+        ctx.count('derived-raster/%s' % dv[0])
+        if 'fatal' in r:
+            ctx.violation('oracle', 'two-call sequence on a derived raster failed: %s' % r['fatal'], rep)
+            continue
+        if r['attrs_before'] != r['attrs_after']:
+            ctx.violation('oracle', 'the Dask %s call changed the attrs of the caller\'s raster: %s -> %s' % (
+                name, r['attrs_before'], r['attrs_after']), dict(rep, attrs_before=r['attrs_before'], attrs_after=r['attrs_after']))
+        for which, d, n in (('first (original raster)', r['first'], r['first_np']),
+                            ('second (raster derived by %s %s)' % (dv[0], dv[1]), r['second'], r['second_np'])):
+            if not grids_equal(n['v'], d['v']):
+                rr, cc, p, q = first_diff(n['v'], d['v'])
+                ctx.violation('oracle', 'Dask %s, %s call: differs from NumPy at cell (%d,%d): numpy %r, dask %r '
+                              '[max_distance %r]' % (name, which, rr, cc, p, q, a['max_distance']),
+                              dict(rep, which=which, cell=[rr, cc], numpy=p, dask=q))
+                break
+
+
 def pair_cases(ctx):
     """two rasters of the same shape and chunking but different cell size, evaluated lazily and computed together"""
     rng = ctx.rng
@@ -616,7 +674,7 @@ def check_edges(ctx, cases, pool):
 
 
 def run(ctx):
-    n = 26 if ctx.quick() else 300
+    n = 20 if ctx.quick() else 300
     cases = gen_cases(ctx, n)
     suspects = model_search(ctx, 1500 if ctx.quick() else 30000)
     for s in suspects[:6]:
@@ -626,8 +684,9 @@ def run(ctx):
         if suspects:
             ctx.notes.append('model search: %d chunk-dependent model results, replayed on the implementation' % len(suspects))
             check_cases(ctx, suspects[:6], pool)
-        check_cases(ctx, special_cases(ctx) + cases, pool)
+        check_cases(ctx, special_cases(ctx) + bigint_cases(ctx) + cases, pool)
         check_pairs(ctx, pair_cases(ctx), pool)
+        check_derived(ctx, derived_cases(ctx), pool)
         check_edges(ctx, edge_cases(ctx), pool)
     finally:
         pool.close()
@@ -641,8 +700,9 @@ def search(ctx):
         cases = special_cases(ctx) + special_cases(ctx) + gen_cases(ctx, 60)
         pool = c06.ImplPool(NWORKERS)
         try:
-            check_cases(ctx, cases, pool, use_model=False)
+            check_cases(ctx, bigint_cases(ctx) + cases, pool, use_model=False)
             check_pairs(ctx, pair_cases(ctx), pool)
+            check_derived(ctx, derived_cases(ctx) + derived_cases(ctx), pool)
         finally:
             pool.close()
     finally:
@@ -669,6 +729,18 @@ def replay_case(ctx, case):
                 else:
                     out.append(c06._call3(r['case'], r.get('chunks') if r['op'] == 'dask3' else None, r.get('only')))
             return out
+    if keep.get('fn') == 'dask-derived':
+        dv = keep.pop('derive')
+        ch = keep.pop('chunks')
+        name = keep.pop('function', 'proximity')
+        for k in ('which', 'only', 'attrs_before', 'attrs_after'):
+            keep.pop(k, None)
+
+        class D2:
+            def map(self, reqs):
+                return [c06._call_derived(r['case'], r['chunks'], r['derive'], r['name']) for r in reqs]
+        check_derived(ctx, [(keep, ch, dv, name)], D2())
+        return
     if keep.get('fn') == 'dask-pair':
         sec = keep.pop('second_raster')
         which = keep.pop('which', None)
